@@ -159,12 +159,17 @@ void e1_run(const e1_cfg *c, e1_stats *out) {
         if ((int)depth > out->max_depth) out->max_depth = (int)depth;
         if (c->max_depth && (int)depth >= c->max_depth) { out->fixpoint = 0; out->cap = "depth"; free(S[si].snap); S[si].snap = NULL; continue; }
         if (c->max_states && nS >= c->max_states) { out->fixpoint = 0; out->cap = "states"; break; }
-        if (c->deadline_s > 0 && (si & 255) == 0 && vf_now_s() - t0 > c->deadline_s) { out->fixpoint = 0; out->cap = "deadline"; break; }
+        if ((si & 63) == 0) {
+            double now = vf_now_s();
+            if (c->deadline_s > 0 && now - t0 > c->deadline_s) { out->fixpoint = 0; out->cap = "deadline"; break; }
+            if (vf_violation_events && now - vf_first_violation_t > VF_GRACE_AFTER_VIOLATION_S) { out->fixpoint = 0; out->cap = "stopped-after-violation"; break; }
+        }
         for (int ev = 0; ev < c->nev; ev++) {
             vf_restore(S[si].snap, c->model, c->model_size);
             if (c->enabled && !c->enabled(ev)) continue;
             cur_state = si; cur_ev = ev;
             vf_trace_clear();
+            uint64_t viol0 = vf_violation_events;
             c->apply(ev);
             generic_checks();
             out->transitions++;
@@ -181,6 +186,7 @@ void e1_run(const e1_cfg *c, e1_stats *out) {
                 e1_outhash[e1_outhash_n++] = th;
             }
             if (nsamp_first < 3 && W.ntrace > 0) { char d[1400]; describe(d, sizeof d); vf_sample("%s", d); nsamp_first++; }
+            if (c->prune_on_violation && vf_violation_events != viol0) { out->pruned++; continue; }
             compute_key(&h1, &h2);
             if (tab_insert(h1, h2)) {
                 push_state(si, ev, depth + 1, h1);
